@@ -90,7 +90,7 @@ func encOpt(enc string) gtree.Option {
 	return gtree.WithEncodeTOML()
 }
 
-var c04Hostile = []string{`"`, `'`, `a: b`, `#c`, `\`, "\x01", "\x7f", "a\tb", `é`, `日本`, `- x`, `[x]`, `{y}`, `~`, `null`, `true`, `1e3`, `yes`, ` lead`, `trail `, `a"b'c`, `\n`, `<&>`, `%s`, `=`, `a = "b"`, `C#`, `x ##`}
+var c04Hostile = []string{`"`, `'`, `a: b`, `#c`, `\`, "\x01", "\x7f", "a\tb", `é`, `日本`, `- x`, `[x]`, `{y}`, `~`, `null`, `true`, `1e3`, `yes`, ` lead`, `trail `, `a"b'c`, `\n`, `<&>`, `%s`, `=`, `a = "b"`, `C#`, `x ##`, "\tq"}
 
 type c04Replay struct {
 	Kind  string   `json:"kind"`
@@ -126,6 +126,8 @@ func c04Judge(c *rep.Ctx, d []int, names []string, enc, route string) {
 		sp = enum.Spelling{Unit: "\t", Bullets: []byte("*-")}
 	case "heading":
 		sp = enum.Spelling{Unit: "  ", Bullets: []byte("-"), Heading: true}
+	case "compact":
+		sp = enum.Spelling{Unit: "  ", Bullets: []byte("-*"), Compact: true}
 	case "mixed-roots":
 		sp = enum.Spelling{Unit: "  ", Bullets: []byte("-"), Heading: true, ListRootsFirst: 1}
 	case "opts":
@@ -178,7 +180,7 @@ func sortForest(f model.Forest) {
 	sort.SliceStable(f, func(i, j int) bool { return model.Key(model.Forest{f[i]}) < model.Key(model.Forest{f[j]}) })
 }
 
-var c04Variants = []string{"noiter", "alias", "massive", "plus", "plus-massive", "star-tab", "opts", "heading", "mixed-roots"}
+var c04Variants = []string{"noiter", "alias", "massive", "plus", "plus-massive", "star-tab", "opts", "heading", "mixed-roots", "compact"}
 
 func init() {
 	props["C04"] = func(c *rep.Ctx) {
@@ -214,6 +216,19 @@ func init() {
 						if v == "mixed-roots" && roots < 2 {
 							continue
 						}
+						if v == "compact" {
+							// "-name": for names that do not begin with a blank (that blank would be taken for the separator)
+							// nor with a character that changes what the row is
+							ok := !rootOnlyNames
+							for _, nm := range names {
+								if nm == "" || strings.HasPrefix(nm, " ") || strings.ContainsAny(nm[:1], "-*+#") {
+									ok = false
+								}
+							}
+							if !ok {
+								continue
+							}
+						}
 						if v == "heading" || v == "mixed-roots" {
 							// roots written as "# name": for names a heading can carry (it trims blanks; a leading # is markup)
 							ok := !rootOnlyNames
@@ -229,7 +244,7 @@ func init() {
 						if !rootOnlyNames {
 							c04Judge(c, d, names, enc, "md+"+v)
 						}
-						if roots == 1 && !strings.HasPrefix(v, "plus") && v != "star-tab" && v != "heading" && v != "mixed-roots" {
+						if roots == 1 && !strings.HasPrefix(v, "plus") && v != "star-tab" && v != "heading" && v != "mixed-roots" && v != "compact" {
 							c04Judge(c, d, names, enc, "root+"+v)
 						}
 					}
